@@ -1,6 +1,7 @@
 package k
 
 import (
+	"net/http"
 	"encoding/json"
 	"fmt"
 	"net/url"
@@ -178,7 +179,42 @@ func (r *ruleState) cycle(tag string) *cycleInfo {
 }
 
 // noteCycleReads remembers the state each dispatch cycle read.
+// batchRead is one read of a background coroutine during the convergence window: which rows
+// it returned and whether its batch had room for more.
+type batchRead struct {
+	time int64
+	room bool
+	ids  map[string]bool // task ids (sweep) or root promise ids (dispatcher)
+}
+
 func (r *ruleState) noteCycleReads(before *tables.Tables, recs []*TxRec) {
+	if r.quiescing {
+		for _, tr := range recs {
+			for j, c := range tr.Tx.Commands {
+				if j >= len(tr.Results) || tr.Results[j] == nil {
+					continue
+				}
+				switch c.Kind {
+				case t_aio.ReadTasks:
+					if res := tr.Results[j].ReadTasks; res != nil && tr.Name == "TimeoutTasks" {
+						br := &batchRead{time: c.ReadTasks.Time, room: int(res.RowsReturned) < c.ReadTasks.Limit, ids: map[string]bool{}}
+						for _, rec := range res.Records {
+							br.ids[rec.Id] = true
+						}
+						r.sweepReads = append(r.sweepReads, br)
+					}
+				case t_aio.ReadEnqueueableTasks:
+					if res := tr.Results[j].ReadEnqueueableTasks; res != nil {
+						br := &batchRead{time: c.ReadEnquableTasks.Time, room: int(res.RowsReturned) < c.ReadEnquableTasks.Limit, ids: map[string]bool{}}
+						for _, rec := range res.Records {
+							br.ids[rec.RootPromiseId] = true
+						}
+						r.dispatchReads = append(r.dispatchReads, br)
+					}
+				}
+			}
+		}
+	}
 	for i, tr := range recs {
 		for _, c := range tr.Tx.Commands {
 			if c.Kind != t_aio.ReadEnqueueableTasks {
@@ -314,6 +350,24 @@ func (r *ruleState) onSend(rec *SendRec) {
 	if msg.Plugin != typ || !jsonEqual(msg.Data, data) {
 		s.violate("C19.wrong_transport", P("C19"), "dispatch", "message handed to another transport or address", fmt.Sprintf("recv %s: expected %s %s, got %s %s", tables.S(row.Recv), typ, data, msg.Plugin, msg.Data))
 	}
+	if msg.Plugin == "http" && msg.Reached {
+		// the request that went out must be the one the address describes: its url, its headers
+		// (plus the content type the transport sets), nothing left over from another message
+		var addr struct {
+			Url     string            `json:"url"`
+			Headers map[string]string `json:"headers"`
+		}
+		_ = json.Unmarshal([]byte(data), &addr)
+		wantH := map[string]string{"Content-Type": "application/json"}
+		for k, v := range addr.Headers {
+			if ck := http.CanonicalHeaderKey(k); ck != "Content-Type" {
+				wantH[ck] = v
+			}
+		}
+		if u, err := url.Parse(addr.Url); err != nil || u.String() != msg.SentURL || normMap(wantH) != normMap(msg.SentHeaders) {
+			s.violate("C19.http_request", P("C19"), "dispatch", "the http request is not the one the address describes", fmt.Sprintf("recv %s: sent POST %s %s, expected %s %s", tables.S(row.Recv), msg.SentURL, normMap(msg.SentHeaders), addr.Url, normMap(wantH)))
+		}
+	}
 	want := msg.Outcome == "ok"
 	if rec.Success != want && !rec.Post {
 		s.violate("C19.outcome", P("C19", "C08"), "dispatch", "hand-off outcome not reported faithfully", fmt.Sprintf("transport said %s, sender reported success=%v err=%q", msg.Outcome, rec.Success, rec.Err))
@@ -357,6 +411,7 @@ func (r *ruleState) onQuiesceStart() {
 	s := r.s
 	r.quiescing = true
 	r.quiesceStartEv = s.Ev
+	r.sweepReads, r.dispatchReads = nil, nil
 	r.q0roots = map[string]bool{}
 	busy := map[string]bool{}
 	for _, t := range s.Last.Tasks {
@@ -630,7 +685,11 @@ func (r *ruleState) onQuiesceEnd(rounds int) {
 		for _, id := range tables.SortedKeys(last.Tasks) {
 			t := last.Tasks[id]
 			if (t.State == 2 || t.State == 4) && (t.ExpiresAt <= now || t.Timeout <= now) {
-				s.violate("C11.task_overdue", P("C11", "C07"), "task", "enqueued or claimed task past its lease or timeout after the convergence window ["+s.cfgClass()+"]", fmt.Sprintf("now %d rounds %d: %s", now, rounds, t))
+				due := t.Timeout
+				if t.ExpiresAt < due {
+					due = t.ExpiresAt
+				}
+				s.violate("C11.task_overdue", P("C11", "C07"), "task", "enqueued or claimed task past its lease or timeout after the convergence window ["+s.cfgClass()+"] "+passedOver(r.sweepReads, due, t.Id), fmt.Sprintf("now %d rounds %d: %s", now, rounds, t))
 				break
 			}
 		}
@@ -646,13 +705,36 @@ func (r *ruleState) onQuiesceEnd(rounds int) {
 					}
 				}
 				if still {
-					s.violate("C11.task_undispatched", P("C11", "C08"), "task", "dispatchable task never dispatched during the convergence window ["+s.cfgClass()+"]", fmt.Sprintf("root %q, rounds %d", root, rounds))
+					s.violate("C11.task_undispatched", P("C11", "C08"), "task", "dispatchable task never dispatched during the convergence window ["+s.cfgClass()+"] "+passedOver(r.dispatchReads, 0, root), fmt.Sprintf("root %q, rounds %d", root, rounds))
 					break
 				}
 			}
 		}
 	}
 	s.Probes["convergence_checked"]++
+}
+
+// passedOver names what kept a row waiting: every read of the background coroutine since the row
+// became due was full (the batch limit crowded it out), or some read had room and still did
+// not return it, or the coroutine did not read at all.
+func passedOver(reads []*batchRead, due int64, id string) string {
+	n, room := 0, 0
+	for _, br := range reads {
+		if br.time < due || br.ids[id] {
+			continue
+		}
+		n++
+		if br.room {
+			room++
+		}
+	}
+	switch {
+	case n == 0:
+		return "{no read of the background coroutine since it became due}"
+	case room > 0:
+		return "{passed over by a read that had room}"
+	}
+	return "{crowded out: every read was full}"
 }
 
 func (r *ruleState) onFinish() {
